@@ -130,7 +130,8 @@ class PokerProp(Prop):
     scope = "mixed"
     trusted_base = ["random.sample replaced by a deterministic sampler passed identically to model and implementation",
                     "payout floats compared with exact rationals at relative tolerance 1e-9"]
-    assumptions = ["inputs are passed by value (fresh lists per game object)", "ante <= big blind when blinds are posted",
+    assumptions = ["board lists are passed by value (the unchanged engine writes to the caller's board list); deck and hands objects are "
+                   "shared between replays on purpose", "ante <= big blind when blinds are posted",
                    "chip counts < 2^53 wherever floats are involved (rake, payouts, pnl); C04 also plays tables beyond 2^53, judged on the "
                    "integer quantities only"]
 
